@@ -611,6 +611,9 @@ class CallMixin:
             res = None
         else:
             res = c.result(a, st) if callable(c.result) and not hasattr(c.result, "fresh") else c.result.fresh("r_" + c.qualname.split(".")[-1], st)
+        if c.effect is not None:
+            c.effect(a, st, res)
+        a.__dict__["final"] = NS({k: specval(v, st, self) for k, v in bound.items()})
         if c.ensures is not None:
             post = c.ensures(a, specval(res, st, self))
             for f in (post if isinstance(post, (list, tuple)) else [post]):
